@@ -66,6 +66,17 @@ pub fn run(out: &mut Out, rng: &mut Rng, thorough: bool) {
                 }
             }
         }
+        // a clump in a CUBIC periodic box: the far images across the body diagonal (1.73 box lengths away) bound the cells
+        for _ in 0..2 {
+            let mut inp = gen::make(rng, "clump", 3, true, 9);
+            for _ in 0..8 {
+                if inp.family.contains("_unit_") || inp.family.contains("_cube12_") {
+                    break;
+                }
+                inp = gen::make(rng, "clump", 3, true, 9);
+            }
+            emit(out, &inp, &None, "brute verts");
+        }
     }
 }
 
